@@ -390,7 +390,7 @@ func Run(tier, replay string) {
 	// executable integer programs: exhaustive at depth 1 over boundary constants
 	consts := map[string]string{"ExecWidths": "{1, 8, 32}"}
 	if thorough {
-		consts = map[string]string{"ExecWidths": "{1, 8, 16, 32, 64}", "BoundarySmall": "FALSE"}
+		consts = map[string]string{"ExecWidths": "{1, 8, 16, 32, 64}"}
 	}
 	var exec1 []schema.Prog
 	if on("exec") {
